@@ -237,6 +237,21 @@ SPEC_BUILTINS = dict(forall=sp_forall, exists=sp_exists, implies=sp_implies, ite
 
 
 def call_specfn(eng, fn, args, st):
+    if fn.tree is not None and fn.uf:
+        lam = fn.tree
+        names = [a.arg for a in lam.args.args]
+        argk, retk = fn.sig
+        f = eng.uf('spec_' + fn.name, *([sort_of(k) for k in argk] + [sort_of(retk)]))
+        key = 'axioms:' + fn.name
+        if key not in st.ghost:
+            st.ghost[key] = True
+            bound = [z3.Const('%s_%s' % (fn.name, n), sort_of(k)) for n, k in zip(names, argk)]
+            ss = spec_state(st, {n: Val(k, b) for n, k, b in zip(names, argk, bound)}, None, {})
+            body = eng.ev(lam.body, ss)
+            bt = to_real(body) if retk == 'real' else body.t
+            st.pc.append(z3.ForAll(bound, f(*bound) == bt, patterns=[f(*bound)]))
+        ts = [to_real(a) if k == 'real' else a.t for a, k in zip(args, argk)]
+        return Val(retk, f(*ts))
     if fn.tree is not None:
         lam = fn.tree
         names = [a.arg for a in lam.args.args]
